@@ -305,7 +305,9 @@ def gen_tb_case(rng, P):
         if x < 0.5: prog.append(rng.choice(['tell 0 1 %d 0' % g.newdata(), 'sub 0 %d 0 0 1' % rng.choice(TOPICS), 'become 0 1', 'unbecome 0',
                                             'batchsize 0 2', 'srcreg 0 tmr %d 0 0 0 3' % rng.choice(TMR_KEYS), 'pause 0', 'resume 0', 'publish 0 1 %d 0' % g.newdata()]))
         elif x < 0.75: prog += ['fire 0 tmr %d' % (1000000000 // rate), 'dispatch']
-        elif x < 0.85: rate = rng.choice([0, 1, 2, 5, 1000]); burst = rng.choice([0, 1, 2, 4]); prog.append('tb 0 %d %d' % (rate, burst)); rate = rate or 1
+        elif x < 0.85:
+            rate = rng.choice([0, 1, 2, 5, 1000, 1000000000, 1000000001]); burst = rng.choice([0, 1, 2, 4])     # the last two: the largest rate accepted, the smallest refused
+            prog.append('tb 0 %d %d' % (rate, burst)); rate = rate if 0 < rate <= 1000000000 else 1
         elif x < 0.9: prog += ['stop 0', 'start 0']
         else: prog.append('dispatch')
     prog += ['dispatch', 'quit 1', 'dispatch', 'dispatch', 'live', 'dereg 0', 'dereg 1', 'ctxdereg', 'live']
